@@ -147,13 +147,52 @@ def live(v, paths):
 
 
 
+def tb_clears_legit(v, base):
+    """Every clear of this talkback cell happens where the upstream it names is gone: in an end arm (Error / Terminate) of the
+    handler that stores it (the upstream ended by itself), or on a path that has already sent that very talkback a Terminate /
+    Error.  Only then does 'the cell is empty' mean 'nobody is there to be told'; a clear anywhere else (say, in a Pull arm)
+    would make the empty branch reachable while the upstream is alive, and the relay lemmas may not skip it."""
+    cache = v.__dict__.setdefault("_tb_clears_legit", {})
+    if base in cache:
+        return cache[base]
+    tb = v.talkback_cells()
+    storers = {h for h, _ in tb.get(base, [])}
+    ok = True
+    for b in v.op.bodies:
+        body = v.P.bodies[b]
+        for var in (VARIANTS if body.is_handler() else [None]):
+            for p in v.arm(b, var):
+                for i, e in ev_effects(p):
+                    if not (e.kind == "cell" and e.op in ("store", "swap") and base_key(e.cell) == base):
+                        continue
+                    val = e.value
+                    if val is not None and val[0] == "agg" and val[2] == "Option::Some":
+                        continue
+                    if b in storers and var in ("Error", "Terminate"):
+                        continue
+                    told = [1 for j, x in ev_effects(p) if j < i and x.kind == "send" and x.variant in ("Terminate", "Error")
+                            and recv_load(x) is not None and cell_key(recv_load(x)[1]) == cell_key(e.cell)]
+                    if (e.op == "swap" or e.get("swapped")) and not told:
+                        # `if let Some(tb) = cell.swap(None) { tb(Terminate) }`: taken out and told right away - or it was empty already
+                        told = [1 for j, x in ev_effects(p) if j > i and x.kind == "send" and x.variant in ("Terminate", "Error")
+                                and any(y[0] == "cellload" and y[2] == e.site for y in walk(x.recv))]
+                        was_empty = [1 for (j, a, _) in guards_before(p, len(p.events)) if j > i and a[1][0] == "cellload" and a[1][2] == e.site
+                                     and ((a[0] == "opt" and a[2] == "none") or (a[0] == "discr" and a[2] == 0))]
+                        told = told or was_empty
+                    if not told:
+                        ok = False
+    cache[base] = ok
+    return ok
+
+
 def tb_none_decided(v, p):
-    """The path saw a talkback cell empty (the upstream it would talk to has ended or was disposed): nothing needs to be sent."""
+    """The path saw a talkback cell empty (the upstream it would talk to has ended or was disposed): nothing needs to be sent.
+    Only for cells whose every clear is legitimate (tb_clears_legit)."""
     tb = v.talkback_cells()
     for (_, a, _) in guards_before(p, len(p.events)):
-        if a[0] == "opt" and a[1][0] == "cellload" and a[2] == "none" and base_key(a[1][1]) in tb:
+        if a[0] == "opt" and a[1][0] == "cellload" and a[2] == "none" and base_key(a[1][1]) in tb and tb_clears_legit(v, base_key(a[1][1])):
             return True
-        if a[0] == "discr" and a[1][0] == "cellload" and a[2] == 0 and base_key(a[1][1]) in tb:
+        if a[0] == "discr" and a[1][0] == "cellload" and a[2] == 0 and base_key(a[1][1]) in tb and tb_clears_legit(v, base_key(a[1][1])):
             return True
     return False
 
